@@ -1,5 +1,7 @@
 import NanoVerif.Model.Isa
 import NanoVerif.Model.Nvm
+import NanoVerif.Model.Verifier
+import NanoVerif.Model.Vm
 namespace NanoVerif.Driver
 
 def natList (ws : List String) : Option (List Nat) := ws.mapM String.toNat?
@@ -98,6 +100,93 @@ def crcCmd (hex : String) : String :=
   | none => "bad-op"
   | some bs => toString (crc32 bs).toNat
 
+def valText : Val → String
+  | .void => "v"
+  | .int n => s!"i{n.toInt}"
+  | .u8 n => s!"u{n}"
+  | .float b => s!"f{b.toNat}"
+  | .bool b => if b then "b1" else "b0"
+  | .enum v => s!"e{v}"
+  | .opaque id => s!"o{id}"
+  | .str a => s!"s@{a}"
+  | .arr a => s!"a@{a}"
+  | .struct a => s!"S@{a}"
+  | .union a => s!"U@{a}"
+  | .tuple a => s!"T@{a}"
+  | .hmap a => s!"H@{a}"
+  | .clos a => s!"C@{a}"
+
+def heapText (h : Heap) : String :=
+  " ".intercalate (h.cells.map fun (a, c) =>
+    s!"{a}={c.rc}/{c.obj.kindName}[" ++ ",".intercalate (c.obj.kids.map valText) ++ "]")
+
+def traceLine (s : VmState) : String :=
+  s!"{s.ip}:{s.stack.length}:{s.frames.length}:" ++ ",".intercalate (s.stack.map valText) ++ ":" ++ heapText s.heap
+
+def outcomeText : Outcome → String
+  | .running => "running"
+  | .done => "0"
+  | .err c => toString c
+  | .unsupported w => "unsupported(" ++ w.replace " " "_" ++ ")"
+  | .oob w => "OOB(" ++ w.replace " " "_" ++ ")"
+
+/-- run with an optional trace of every instruction boundary -/
+partial def runTrace (m : Module) (fuel : Nat) (s : VmState) (acc : Array String) (tr : Bool) : VmState × Outcome × Nat × Array String :=
+  let atInstr := match m.functions[s.curFn]? with
+    | some fn => s.ip < u32 (fn.codeOffset + fn.codeLength) && !s.frames.isEmpty
+    | none => false
+  let acc := if tr && atInstr then acc.push (traceLine s) else acc
+  if atInstr && fuel == 0 then (s, .unsupported "fuel", 0, acc)
+  else
+    let fuel' := if atInstr then fuel - 1 else fuel
+    match step m s with
+    | (s', .running) => runTrace m fuel' s' acc tr
+    | (s', o) => (s', o, fuel', acc)
+
+def vmExec (m : Module) (fuel : Nat) (tr : Bool) : VmState × Outcome × Array String :=
+  let s0 : VmState := {}
+  if m.flags % 2 == 0 then (s0, .err Gen.vmErr_undefinedFunction, #[])
+  else if m.entryPoint ≥ m.functions.length then (s0, .err Gen.vmErr_undefinedFunction, #[])
+  else
+    let runFn (s : VmState) (f : Nat) (fuel : Nat) (acc : Array String) : VmState × Outcome × Nat × Array String :=
+      match callFunction m s f with
+      | (s', .running) => runTrace m fuel s' acc tr
+      | (s', o) => (s', o, fuel, acc)
+    match initFn m with
+    | some i =>
+      match runFn s0 i fuel #[] with
+      | (s1, .done, fuel', acc) => let (s2, o, _, acc) := runFn s1 m.entryPoint fuel' acc; (s2, o, acc)
+      | (s1, o, _, acc) => (s1, o, acc)
+    | none => let (s2, o, _, acc) := runFn s0 m.entryPoint fuel #[]; (s2, o, acc)
+
+def vmRun (ws : List String) : String :=
+  match ws with
+  | [fuelS, trS, hex] =>
+    match fuelS.toNat?, ofHex hex with
+    | some fuel, some bs =>
+      match deserialize bs with
+      | .error .reject => "loaderr"
+      | .error .oob => "load-oob"
+      | .ok m =>
+        if !verify m then "verifyfail"
+        else if !m.imports.isEmpty then "has-imports"
+        else
+          let (s, o, acc) := vmExec m fuel (trS == "1")
+          let top := match s.stack.getLast? with | some v => valText v | none => "v"
+          let res := s!"R res={outcomeText o} out={hexOr s.out} top={top} live={s.heap.cells.length} dangling={s.heap.dangling}"
+          if trS == "1" then "|".intercalate (acc.toList ++ [res]) else res
+    | _, _ => "bad-op"
+  | _ => "bad-op"
+
+def verifyCmd (hex : String) : String :=
+  match ofHex hex with
+  | none => "bad-op"
+  | some bs =>
+    match deserialize bs with
+    | .error .reject => "loaderr"
+    | .error .oob => "load-oob"
+    | .ok m => if verify m then "ok" else "fail"
+
 def handle (line : String) : String :=
   match line.splitOn " " with
   | "isa.dec" :: [hex] => isaDec hex
@@ -106,6 +195,8 @@ def handle (line : String) : String :=
   | "crc" :: [hex] => crcCmd hex
   | "nvm.load" :: [hex] => nvmLoad hex
   | "nvm.ser" :: [txt] => nvmSer txt
+  | "verify" :: [hex] => verifyCmd hex
+  | "vm.run" :: ws => vmRun ws
   | _ => "bad-op"
 
 end NanoVerif.Driver
